@@ -48,6 +48,11 @@ def decreases(m):
     pass
 
 
+def with_ghost(f, **ghost):
+    """Native twin: ghost arguments do not exist at run time."""
+    return f
+
+
 def check(c, msg=None):
     if not c:
         raise ContractViolation("ghost assertion false")
@@ -362,6 +367,9 @@ class Contract(object):
         # bounded_ensures: postconditions that are only checked natively (bounded stand-in), never assumed at call sites and
         # never counted as proved; bounded_only: reason string - the body is outside the verified subset, the whole contract
         # is checked natively only
+        # ghost_params: {name: type} - extra, specification-only parameters.  In the verification of the body they are arbitrary
+        # values (universally quantified); a caller supplies them with  with_ghost(f, name=value)(args...)
+        self.ghost_params = dict(g("ghost_params", {}))
         self.bounded_ensures = [_parse(s) for s in g("bounded_ensures", [])]
         self.bounded_only = g("bounded_only", None)
         self.ghost = {k: [_parse(x) for x in v] for k, v in g("ghost", {}).items()}
